@@ -17,7 +17,7 @@ struct E3 : Engine {
 	J generate(uint64_t seed,const std::string &prop,bool thorough) override {
 		simk::Rng r; r.seed(seed);
 		J p = J::obj(); p["engine"] = "E3"; p["prop"] = prop;
-		int nthreads = 2 + r.below(thorough ? 7 : 4); int nkeys = 1 + r.below(3); int ntrig = r.below(3);
+		int nthreads = 2 + r.below(thorough ? 7 : 4); int nkeys = 1 + r.below(3); int ntrig = r.below(3); p["coll"] = (int)r.below(2); if(p.geti("coll")) nkeys = 2 + r.below(3);   // coll: the keys collide in the cache's hash table
 		static const int limits[] = {0,0,0,1,2,4}; p["limit"] = limits[r.below(6)];
 		p["sched_seed"] = (unsigned long long)(r.next() >> 8); p["strategy"] = (int)r.below(3); p["pct_depth"] = 1 + (int)r.below(3); p["pct_len"] = 20 + (int)r.below(400);
 		int budget = 24 + (thorough ? 8 : 0);   // total ops across threads stays tractable for the linearizability search
@@ -40,11 +40,13 @@ struct E3 : Engine {
 		return p;
 	}
 
-	static std::string key_name(int k){ return "k" + std::to_string(((k % 100) + 100) % 100); }
+	// "k0", "j@", "iP", "h`" have the same cppcms string_hash (16*c1+c2 = 1760): in every table size they share one bucket chain
+	static bool &colliding(){ static bool v = false; return v; }
+	static std::string key_name(int k){ k = ((k % 100) + 100) % 100; static const char *coll[] = {"k0","j@","iP","h`"}; if(colliding() && k < 4) return coll[k]; return "k" + std::to_string(k); }
 	static std::string trig_name(int t){ t = ((t % 1000) + 1000) % 1000; return t >= 100 ? key_name(t-100) : "t" + std::to_string(t); }
 
 	RunResult run(const J &plan) override {
-		RunResult res;
+		RunResult res; colliding() = plan.geti("coll") != 0;
 		simk::Params sp; sp.sched_seed = (uint64_t)plan.geti("sched_seed",1); sp.fault_seed = 1; sp.strategy = (int)(((plan.geti("strategy") % 3) + 3) % 3);
 		sp.pct_depth = (int)std::max<int64_t>(1,std::min<int64_t>(plan.geti("pct_depth",2),8)); sp.pct_len = (int)std::max<int64_t>(1,plan.geti("pct_len",200)); sp.tick_us = 0; sp.text_trace = plan.geti("text_trace");
 		const J &ta = plan.get("tape"); for(size_t i=0;i<ta.size();i++) sp.tape.push_back((uint32_t)ta.a[i].as_int());
